@@ -127,7 +127,41 @@ pub fn run(rng: &mut Rng, count: usize, thorough: bool, out: &mut Out) {
         for _ in 0..n_init {
             init.push(*rng.pick(&universe)); // repetitions on purpose
         }
-        let len = if thorough { rng.range(1, 60) } else { rng.range(1, 30) };
+        let mut len = if thorough { rng.range(1, 60) } else { rng.range(1, 30) };
+        // one history in three starts with a planned "churn" scenario: many attacks sharing an end point
+        // (or a dense graph) inserted in a random order and then removed in another random order, so that
+        // the per-argument index vectors go through every swap_remove position (a random mix rarely builds
+        // three attacks on one target and then removes a non-last one followed by a moved one)
+        let mut planned: std::collections::VecDeque<Op> = std::collections::VecDeque::new();
+        if rng.chance(1, 3) {
+            let n = rng.range(3, 6);
+            let labs: Vec<usize> = (1..=n).collect();
+            for l in labs.iter() {
+                if !init.contains(l) {
+                    planned.push_back(Op::NewArg(*l));
+                }
+            }
+            let hub = *rng.pick(&labs);
+            let mut pairs: Vec<(usize, usize)> = match rng.below(3) {
+                0 => labs.iter().map(|a| (*a, hub)).collect(),            // fan-in (self-attack included)
+                1 => labs.iter().map(|b| (hub, *b)).collect(),            // fan-out
+                _ => labs.iter().flat_map(|a| labs.iter().map(move |b| (*a, *b))).collect(), // dense
+            };
+            rng.shuffle(&mut pairs);
+            for (a, b) in pairs.iter() {
+                planned.push_back(Op::NewAtt(*a, *b));
+            }
+            rng.shuffle(&mut pairs);
+            let keep = rng.below(pairs.len() + 1);
+            for (a, b) in pairs.iter().skip(keep.min(2)) {
+                planned.push_back(Op::RemAtt(*a, *b));
+            }
+            if rng.chance(1, 2) {
+                planned.push_back(Op::RemArg(hub));
+            }
+            len += planned.len();
+        }
+        let universe: Vec<usize> = if planned.is_empty() { universe } else { (1..=6.max(usize_univ)).collect() };
         out.case("store");
         out.inp(&format!("init {}", join(init.iter(), " ")));
         out.inp(&format!("universe {}", join(universe.iter(), " ")));
@@ -136,7 +170,10 @@ pub fn run(rng: &mut Rng, count: usize, thorough: bool, out: &mut Out) {
             out.out(&l);
         }
         for _ in 0..len {
-            let op = random_op(rng, &universe, &af);
+            let op = match planned.pop_front() {
+                Some(o) => o,
+                None => random_op(rng, &universe, &af),
+            };
             out.inp(&format!("op {}", op.to_string()));
             let r = guarded(|| apply_op(&mut af, &op));
             match r {
